@@ -335,25 +335,34 @@ fn gen_part2(thorough: bool, rng: &mut Rng, out: &mut dyn FnMut(String)) {
     let mut huge = huge_shapes();
     huge.extend([vec![1024, 10], vec![4, 25, 100], vec![3, 8200], vec![8193, 2], vec![2, 2, 4099], vec![191, 193], vec![65537], vec![1, 65600], vec![257, 64]]);
     if thorough { huge.extend([vec![65, 257], vec![1000, 131], vec![7, 9, 11, 13, 2], vec![2, 3, 2, 3, 2, 3, 2, 37], vec![131072], vec![3, 40000], vec![40000, 3], vec![127, 129, 3]]); }
+    // the crate's own `split` is quadratic in the number of blocks (0.2 s per call for 16 000 blocks, 3 s for 70 000; seven calls per
+    // line): flips / rolls that cut the flat vector into more than 3000 blocks are left out at these sizes (the long axis is then
+    // exercised as the lane: [2,70000] axis 1, the flat roll, flip none, the quarter turns that flip before they transpose)
+    let cuts = |s: &[usize], ax: usize| -> usize { if ax + 1 == s.len() && ax > 0 { s[..ax].iter().product() } else { s[0] } };
+    let light = |s: &[usize], ax: usize| cuts(s, ax) <= 3000;
     for (q, s) in huge.iter().enumerate() {
         let a = tag(s); let nd = s.len(); let n: usize = s.iter().product(); let ni = n as isize;
-        out(format!("n flip {a} none")); out(format!("n flipud {a}")); if nd >= 2 { out(format!("n fliplr {a}")); }
-        for i in 0..nd { out(format!("n flip {a} {}", spell(i, nd, (i + q) % 2 == 1))); }
-        if nd >= 2 { out(format!("n flip {a} {},0", spell(nd - 1, nd, true))); out(format!("n flip {a} {}", show_list(&(0..nd as isize).rev().collect::<Vec<_>>()))); }
+        out(format!("n flip {a} none")); if light(s, 0) { out(format!("n flipud {a}")); } if nd >= 2 && light(s, 1) { out(format!("n fliplr {a}")); }
+        for i in 0..nd { if light(s, i) { out(format!("n flip {a} {}", spell(i, nd, (i + q) % 2 == 1))); } }
+        if nd >= 2 && (0..nd).all(|i| light(s, i)) { out(format!("n flip {a} {},0", spell(nd - 1, nd, true))); out(format!("n flip {a} {}", show_list(&(0..nd as isize).rev().collect::<Vec<_>>()))); }
         for sh in [1, -1, ni / 2 + 1, ni + 7, -(3 * ni + 5), 8191, 65537] { out(format!("n roll {a} {sh} none")); }
-        for i in 0..nd { let d = s[i] as isize; for (r, sh) in [1, -1, d / 2, d + 1, -2 * d - 3, 63, 4097].into_iter().enumerate() { if r < 3 || (r + q + i) % 2 == 0 || thorough { out(format!("n roll {a} {sh} {}", spell(i, nd, (r + i) % 2 == 1))); } } }
-        if nd >= 2 { out(format!("n roll {a} 3,-5,9 {},{},0", spell(nd - 1, nd, true), spell(1, nd, false))); out(format!("n roll {a} 7 0,{}", spell(nd - 1, nd, false))); }
+        for i in 0..nd { if !(light(s, i) || nd == 1) { continue; } let d = s[i] as isize; for (r, sh) in [1, -1, d / 2, d + 1, -2 * d - 3, 63, 4097].into_iter().enumerate() { if r < 3 || (r + q + i) % 2 == 0 || thorough { out(format!("n roll {a} {sh} {}", spell(i, nd, (r + i) % 2 == 1))); } } }
+        if nd >= 2 && (0..nd).all(|i| light(s, i)) { out(format!("n roll {a} 3,-5,9 {},{},0", spell(nd - 1, nd, true), spell(1, nd, false))); out(format!("n roll {a} 7 0,{}", spell(nd - 1, nd, false))); }
         if nd >= 2 {
             let mut pairs = vec![(0, nd - 1), (nd - 1, 0)]; if nd > 2 { pairs.extend([(0, 1), (1, 2), (nd - 1, nd - 2), (2, 0)]); }
             for (r, (i, j)) in pairs.into_iter().enumerate() { for k in [1usize, 2, 3] {
                 if r >= 2 && !thorough && (k + r + q) % 3 != 0 { continue; }
+                // the flips behind this turn: k = 1 flips axis j of the array, k = 3 axis j of the exchanged array, k = 2 both axes
+                let mut t = s.clone(); t.swap(i, j);
+                let ok = match k { 1 => light(s, j), 3 => light(&t, j), _ => light(s, i) && light(s, j) };
+                if !ok { continue; }
                 out(format!("n rot90 {a} {} {},{}", if (r + q) % 4 == 3 { k + 4 } else { k }, spell(i, nd, (q + k) % 3 == 1), spell(j, nd, (r + k) % 2 == 1)));
             } }
-            out(format!("n rot90 {a} 1 {},{}", nd - 1, nd - 1));
+            if light(s, nd - 1) { out(format!("n rot90 {a} 1 {},{}", nd - 1, nd - 1)); }
         }
         // the direct comparison with the model where it is linear
-        out(format!("flip {a} none")); out(format!("flip {a} {}", spell(nd - 1, nd, q % 2 == 0)));
-        out(format!("roll {a} {} none", ni / 3 + 1)); out(format!("roll {a} {} {}", -(s[nd - 1] as isize) / 2 - 1, nd - 1));
+        out(format!("flip {a} none")); if light(s, nd - 1) { out(format!("flip {a} {}", spell(nd - 1, nd, q % 2 == 0))); }
+        out(format!("roll {a} {} none", ni / 3 + 1)); if light(s, nd - 1) || nd == 1 { out(format!("roll {a} {} {}", -(s[nd - 1] as isize) / 2 - 1, nd - 1)); }
         if thorough && s[0] <= 300 { out(format!("flip {a} 0")); out(format!("roll {a} 1 0")); if nd >= 2 && n <= 17000 { out(format!("rot90 {a} 1 0,{}", nd - 1)); } }
     }
     // hidden state at huge sizes: shapes with equal element counts back to back through the reference
